@@ -31,6 +31,17 @@ int pipe_init(int *read, int *write)
     goto finish;
   }
 
+  // The child process `dup2`s onto 0-2, so our pipes have to stay clear of them.
+  r = handle_above_std(&pair[0]);
+  if (r < 0) {
+    goto finish;
+  }
+
+  r = handle_above_std(&pair[1]);
+  if (r < 0) {
+    goto finish;
+  }
+
   r = handle_cloexec(pair[0], true);
   if (r < 0) {
     goto finish;
